@@ -307,8 +307,11 @@ Definition shutdown (st : state) : state :=
 (* WalRotator::truncate_before, as coded: the listing (names) is taken once, in name
    (= sequence) order; the current writer's file is skipped; a file that cannot be opened (no complete
    header) is skipped; a file whose readable entries all carry a stamp <= t (in
-   particular: none) is deleted; a failing delete ends the loop (`?`).  The stamp of the
-   entry of write w is w (the harness uses the timestamp as the write id). *)
+   particular: none) is deleted; a failing delete ends the loop (`?`).  A write is named
+   w = stamp * 1024 + serial: [stamp w] is the timestamp its entry carries (stamps may
+   repeat and arrive in any order; the serial number makes the name unique). *)
+Definition wid (ts serial : N) : N := ts * 1024 + serial.
+Definition stamp (w : N) : N := w / 1024.
 Definition file_entries (f : file) : option (list N) :=
   match f_items f with
   | IHdr :: r => Some (take_entries r)
@@ -316,7 +319,7 @@ Definition file_entries (f : file) : option (list N) :=
   end.
 Definition deletable (t : N) (f : file) : bool :=
   match file_entries f with
-  | Some es => forallb (fun w => w <=? t) es
+  | Some es => forallb (fun w => stamp w <=? t) es
   | None => false
   end.
 Definition files_at (st : store) (s : N) : list file :=
